@@ -190,7 +190,9 @@ func NewWorld(h *History) *World {
 	if h.Cfg.Defer {
 		opts = append(opts, dig.DeferAcyclicVerification())
 	}
-	if h.Cfg.DryRun {
+	if h.Cfg.OptNoise {
+		opts = append(opts, dig.DryRun(!h.Cfg.DryRun), dig.DryRun(h.Cfg.DryRun))
+	} else if h.Cfg.DryRun {
 		opts = append(opts, dig.DryRun(true))
 	}
 	curValMask, curAltMask = h.Cfg.ValMask, h.Cfg.AltMask
@@ -616,7 +618,9 @@ func (w *World) buildResult(c *mintCtx, r Result, rt reflect.Type, top bool) ref
 				}
 				return sl, ser
 			}
-			if !flatten {
+			// a decorator returns the whole group, i.e. a slice of members
+			whole := flatten || (f.Role == RoleDec && r.Kind == RGroup)
+			if !whole {
 				v, ser := one(0)
 				c.minted = append(c.minted, ser)
 				return v
